@@ -46,7 +46,7 @@ class Rec:
 
     # -- call log ---------------------------------------------------------
     def enter(self, fid: str, kw: dict) -> None:
-        counted = KIND.get(fid, "fn") == "fn"
+        counted = KIND.get(fid, "fn") in ("fn", "int-async")
         if self.lock is None:
             self.inflight += 1
             self.max_inflight = max(self.max_inflight, self.inflight)
@@ -64,7 +64,7 @@ class Rec:
                 self.ev.append(("enter", fid, dict(kw), RUN.get(), TAG.get(), self.inflight_fn))
 
     def leave(self, what: str, fid: str, payload: Any) -> None:
-        counted = KIND.get(fid, "fn") == "fn"
+        counted = KIND.get(fid, "fn") in ("fn", "int-async")
         if self.lock is None:
             self.inflight -= 1
             if counted:
@@ -98,7 +98,7 @@ TAG: contextvars.ContextVar = contextvars.ContextVar("hgmon_tag", default=None)
 
 BEH: dict[str, Any] = {}  # fid -> callable(kwargs) -> result
 FAIL: dict[str, BaseException] = {}  # fid -> exception object to raise
-KIND: dict[str, str] = {}  # fid -> "fn" | "gate" | "int"
+KIND: dict[str, str] = {}  # fid -> "fn" | "gate" | "int" | "int-async" (a handler coroutine: a body like a function node's)
 HOOK: dict[str, Any] = {}  # fid -> callable(kwargs) run at enter (mutation workloads)
 SCHED: "Sched | None" = None
 _run_counter = itertools.count(1)
